@@ -17,12 +17,13 @@ Definition eev_eqb (a b : eev) : bool :=
   | _, _ => false
   end.
 
-Record lcase := LC { c_eager : bool; c_first : stage; c_rest : list stage; c_srcs : list srcd;
+Record lcase := LC { c_ck : ckind; c_first : stage; c_rest : list stage; c_srcs : list srcd;
                      c_k : nat; c_ctor : list eev; c_pull : list eev }.
 
 Definition corr_lazy (c : lcase) : bool :=
-  list_eqb eev_eqb (c_ctor c) (ctrace (c_eager c) (c_srcs c)) &&
-  list_eqb eev_eqb (c_pull c) (if c_eager c then [] else ptrace (c_first c) (c_rest c) (c_srcs c) (c_k c)).
+  list_eqb eev_eqb (c_ctor c) (ctrace (c_ck c) (c_srcs c)) &&
+  list_eqb eev_eqb (c_pull c)
+    (if builds (c_ck c) (c_srcs c) then ptrace (c_first c) (c_rest c) (c_srcs c) (c_k c) else []).
 
 (* need of a stage, counting the sources selected by c (as first stage of a pipeline);
    a later stage reads its single input: c = every *)
@@ -37,6 +38,8 @@ Definition sneedc (g : stage) (c : nat -> bool) : nat -> nat :=
   | GPad l _ => one_src c (need_pad l)
   | GBlocks size hop => one_src c (need_blocks size hop)
   | GBatched n => one_src c (need_blocks n n)
+  | GAttack n => one_src c (need_attack n)
+  | GRefuse _ => fun _ => 0
   | GResampleTV order old new =>
       need_resample_tv c (rs_n0 order) (rs_idx0 order new) (rs_thr order new) (rs_stp old) (rs_one new)
   | GTee n sched => one_src c (need_tee n sched)
@@ -61,9 +64,18 @@ Fixpoint etr_ok (i : nat -> bool) (need : nat -> nat) (r y : nat) (t : list eev)
 Definition no_reads (t : list eev) : bool :=
   forallb (fun e => match e with ER _ | EE _ => false | _ => true end) t.
 
-(* the property on the implementation's observation: the source is not touched at construction, and
-   every read within the stated need of the output being asked for, on every source *)
+(* what construction may do: nothing - except a documented bounded prefix of a parameter source *)
+Definition ctor_ok (ck : ckind) (t : list eev) : bool :=
+  match ck with
+  | CPrefix src n =>
+      forallb (fun e => match e with ER i | EE i => Nat.eqb i src | _ => true end) t &&
+      (List.length (filter (fun e => match e with ER _ => true | _ => false end) t) <=? n)
+  | _ => no_reads t
+  end.
+
+(* the property on the implementation's observation: the sources are not touched at construction (beyond a
+   documented parameter prefix), and every read within the stated need of the output being asked for, on every source *)
 Definition holds_lazy (c : lcase) : bool :=
-  no_reads (c_ctor c) &&
+  ctor_ok (c_ck c) (c_ctor c) &&
   forallb (fun i => etr_ok (only i) (pneed (c_first c) (c_rest c) i) 0 0 (c_pull c))
           (seq 0 (List.length (c_srcs c))).
